@@ -11,6 +11,9 @@ for p in ALL:
     except ModuleNotFoundError:
         na.append({"property_id": p, "reason": "check under construction in this session (see DESIGN.md section 11); not yet claimed"})
         continue
+    if not getattr(mod, "READY", True):
+        na.append({"property_id": p, "reason": "check exists (model, harness, correspondence run) but its proofs are still being completed in this session; not yet claimed"})
+        continue
     c = mod.CLAIM
     checks.append({
         "property_id": p,
